@@ -2,6 +2,7 @@
 import random
 
 from ..harness import Scenario, gen_cfg
+from ..probes import InjectedFault
 from ..core import jsonable
 
 SHARDS = {"quick": 1, "thorough": 16}
@@ -29,7 +30,7 @@ def check_identity(run, sc, where, replay):
 def main(run):
     run.level = "exploration"
     run.rule = ("seeded configurations from the cfg product (mode x alpha x n_inner x d x storage x imputer x "
-                "name type x model x loss x loss_bigger_is_better, per-call n_inner override / update_storage=False); "
+                "name type x model x loss x loss_bigger_is_better, per-call n_inner override / update_storage=False; every 5th configuration with callbacks that fail at random positions, caught by the caller, stream continued); "
                 "the identity is evaluated after EVERY explain_one (all prefixes), == on exact rationals (Q-mode) "
                 "and |diff|<=1e-9*(d+2)*max|loss| in float mode; a (config,step) is non-trivial when "
                 "explained_loss != 0 and >= 2 distinct non-zero importance values; distinct by (cfg, step, values)")
@@ -51,12 +52,22 @@ def main(run):
         run.see("cfg-shape", (cfg["dyn"], cfg["d"], cfg["n_inner"], cfg["storage"][0], cfg["imputer"], cfg["names"],
                               cfg["model"], cfg["loss"], cfg["lbib"]))
         hist = []
+        faulty = (i % 5 == 4)        # every 5th configuration: callbacks fail now and then, the caller catches and continues
         for t in range(cfg["steps"]):
             kw = sc.call_kwargs()
+            if faulty and t >= 1 and sc.rnd.random() < 0.35:
+                sc.clock.fail_at_next = sc.rnd.randrange(1, 3 + 2 * cfg["d"] * cfg["n_inner"])
             try:
                 x, y, ret, log = sc.step(**kw)
-            except KeyError as ex:
-                run.other_error(f"C15:step:{type(ex).__name__}")
+            except InjectedFault:
+                run.count("injected-faults-survived")
+                if sc.e.seen_samples > 1 or sc.e.importance_values:
+                    check_identity(run, sc, f"cfg#{i} after a failed call at step {t}", {"cfg": cfg, "seed": seed, "step": t, "fault": True})
+                continue
+            except Exception as ex:
+                run.ok(kind="raised")
+                run.violation("explain-raises", f"cfg#{i} step {t}: explain_one raised {type(ex).__name__}: {ex} on a legal configuration",
+                              {"cfg": cfg, "seed": seed, "step": t, "kwargs": kw})
                 break
             hist.append((x, y, kw))
             replay = {"cfg": cfg, "seed": seed, "step": t, "kwargs": kw}
